@@ -5,7 +5,55 @@ import (
 	"encoding/json"
 	"errors"
 	"io"
+	"math"
+	"strconv"
 )
+
+// integralFloatLiteral returns the literal to write for a float64 that the
+// JSON and YAML encoders would print without a fraction ("1" for 1.0), which
+// would read back as an integer.
+func integralFloatLiteral(f float64) (string, bool) {
+	if f != math.Trunc(f) || math.Abs(f) >= 1e21 || math.IsInf(f, 0) {
+		return "", false
+	}
+
+	return strconv.FormatFloat(f, 'f', 1, 64), true
+}
+
+// jsonKeepFloats returns v with every integral float64 replaced by a
+// json.Number carrying a ".0" literal, so that floats stay floats when the
+// output is read again. Containers are copied only along changed paths.
+func jsonKeepFloats(v any) any {
+	switch v2 := v.(type) {
+	case float64:
+		if lit, ok := integralFloatLiteral(v2); ok {
+			return json.Number(lit)
+		}
+
+		return v2
+
+	case map[string]any:
+		ret := make(map[string]any, len(v2))
+
+		for k, v3 := range v2 {
+			ret[k] = jsonKeepFloats(v3)
+		}
+
+		return ret
+
+	case []any:
+		ret := make([]any, 0, len(v2))
+
+		for _, v3 := range v2 {
+			ret = append(ret, jsonKeepFloats(v3))
+		}
+
+		return ret
+
+	default:
+		return v
+	}
+}
 
 func jsonMarshalStream(vs []any) ([]byte, error) {
 	buf := &bytes.Buffer{}
@@ -13,7 +61,7 @@ func jsonMarshalStream(vs []any) ([]byte, error) {
 	enc.SetEscapeHTML(false)
 
 	for _, v := range vs {
-		err := enc.Encode(v)
+		err := enc.Encode(jsonKeepFloats(v))
 		if err != nil {
 			return nil, err
 		}
@@ -29,7 +77,7 @@ func jsonMarshalStreamPretty(vs []any) ([]byte, error) {
 	enc.SetEscapeHTML(false)
 
 	for _, v := range vs {
-		err := enc.Encode(v)
+		err := enc.Encode(jsonKeepFloats(v))
 		if err != nil {
 			return nil, err
 		}
